@@ -450,7 +450,9 @@ def r40(ctx: Ctx) -> RuleReport:
             if f_.parent is fi and len(f_.positional) == 2:
                 k_, m_ = f_.positional
                 if any(isinstance(x, ast.Call) and isinstance(x.func, ast.Attribute) and x.func.attr == 'append' and len(x.args) == 1 and norm(x.args[0]) == m_
-                       and isinstance(x.func.value, ast.Subscript) and norm(x.func.value.slice) == k_ for x in walk_local(f_.node)):
+                       and ((isinstance(x.func.value, ast.Subscript) and norm(x.func.value.slice) == k_)
+                            or (isinstance(x.func.value, ast.Call) and isinstance(x.func.value.func, ast.Attribute) and x.func.value.func.attr == 'setdefault'
+                                and x.func.value.args and norm(x.func.value.args[0]) == k_)) for x in walk_local(f_.node)):
                     reporters.add(f_.name)
         for a in [n for n in ast.walk(loop) if isinstance(n, ast.Call) and isinstance(n.func, ast.Name) and n.func.id in reporters and len(n.args) == 2
                   and try_fold(n.args[1]) == (True, 'invalid role')]:
@@ -1152,6 +1154,10 @@ def r91(ctx: Ctx) -> RuleReport:
         if len(vals) == 1 and isinstance(vals[0], ast.AST) and norm(vals[0]) in aliases:
             aliases[nm] = aliases[norm(vals[0])]
 
+    for x_ in walk_local(fi.node):
+        if isinstance(x_, ast.NamedExpr) and isinstance(x_.target, ast.Name) and norm(x_.value) in aliases:
+            aliases[x_.target.id] = aliases[norm(x_.value)]           # (top := graph.top)
+
     def canon(src: str) -> str:
         for k in sorted(aliases, key=len, reverse=True):
             src = _re.sub(r'(?<![\w.])' + _re.escape(k) + r'(?![\w])', aliases[k], src)
@@ -1159,6 +1165,8 @@ def r91(ctx: Ctx) -> RuleReport:
 
     def atom_of(e: ast.AST):
         """-> (atom, value of the atom when the condition is true) or None"""
+        if isinstance(e, ast.NamedExpr):
+            e = e.value
         s = canon(norm(e)).replace(' ', '')
         table = {'len(TRIPLES)==0': ('E', True), 'notTRIPLES': ('E', True), 'TRIPLES': ('E', False), 'len(TRIPLES)': ('E', False), 'len(TRIPLES)>0': ('E', False),
                  'len(TRIPLES)!=0': ('E', False), 'len(TRIPLES)<1': ('E', True), '0==len(TRIPLES)': ('E', True), 'len(TRIPLES)>=1': ('E', False),
@@ -1463,9 +1471,11 @@ def r95(ctx: Ctx) -> RuleReport:
     # (2) the work-list
     key = f'{fi.fq}: every unvisited neighbour of a visited node is put on the agenda'
     found = False
+    from .graphq import _as_comprehension as _asc
     for n in walk_local(fi.node):
-        if isinstance(n, ast.Call) and isinstance(n.func, ast.Attribute) and n.func.attr == 'extend' and n.args and isinstance(n.args[0], (ast.GeneratorExp, ast.ListComp)):
-            comp = n.args[0]
+        if isinstance(n, ast.Call) and isinstance(n.func, ast.Attribute) and n.func.attr == 'extend' and n.args \
+                and isinstance(_asc(ctx, fi, n.args[0]) if isinstance(n.args[0], ast.Call) else n.args[0], (ast.GeneratorExp, ast.ListComp)):
+            comp = _asc(ctx, fi, n.args[0]) if isinstance(n.args[0], ast.Call) else n.args[0]
             found = True
             g0 = comp.generators[0]
             neg = [c for c in g0.ifs if isinstance(c, ast.Compare) and len(c.ops) == 1 and isinstance(c.ops[0], ast.In) and norm(c.left) == norm(g0.target)]
